@@ -67,10 +67,10 @@ def check_case(ctx, g, model=None):
         for i, row in enumerate(g["transition_list"]):
             if players[i] in (P1, PR):
                 ndead = max(ndead, sum(1 for _, t in row if r["probs"][t] == 0))
-    ctx.case({"game": gen.desc(g), "meta": g.get("_meta")}, ndead >= 1)
+    ctx.case({"game": gen.desc(g), "meta": g.get("_meta")} if len(players) <= 40 else {"meta": g.get("_meta")}, ndead >= 1)
     ctx.count(f"max_dead_successors={min(ndead, 4)}{'+' if ndead >= 4 else ''}")
     ctx.count("family=" + g.get("_meta", {}).get("family", "?"))
-    inp = {"game": gen.desc(g)}
+    inp = {"game": gen.desc(g)} if len(players) <= 60 else {"meta": g.get("_meta"), "regenerate": "gen." + str(g.get("_meta", {}).get("family"))}
     if r["outcome"] == "Timeout":
         ctx.count("timeout_skipped")
     elif r["outcome"] != "ok":
@@ -103,6 +103,13 @@ def run(ctx, model=None):
             for fr in fronts:
                 g = gen.dead_shape_game(rng, kind, pat, front=fr)
                 check_case(ctx, g, model)
+    # sizes and magnitudes beyond the random families
+    check_case(ctx, gen.big_dead_corridor(2100), model)
+    check_case(ctx, gen.cascade_game(300 if ctx.quick() else 1050), None)
+    for kk in ((20,) if ctx.quick() else (5, 20, 30)):
+        check_case(ctx, gen.descending_ladder_game(kk), model)
+    for k in range(6 if ctx.quick() else 60):
+        check_case(ctx, gen.tiny_dead_mass_game(rng), model)
     for k in range(12 if ctx.quick() else 200):
         check_case(ctx, gen.tiny_reach_game(rng), model)
         check_case(ctx, gen.parallel_dead_game(rng), model)
